@@ -109,6 +109,14 @@ class KeySet(sm.SM):
         s = json.load(open(sf))
         if s.get("raced"):
             raise vf.ToolError("the key provider task stored again while its file was being observed (machine too slow)")
+        # header field "time": the daemon's start on an otherwise well-formed file with an impossible time stamp
+        for name in ("time_half", "time_max", "time_far", "time_zero"):
+            if name not in s:
+                raise vf.ToolError("daemon stage did not report %s" % name)
+            if s[name] != "ok" and prop == "C27":
+                out.violation("KeySet:daemon start on a key file with a corrupted time stamp (%s): %s" % (name, s[name]),
+                              {"how": "daemon", "file": "well-formed, 2 keys, time field = %s" % name, "observed": s[name]})
+            out.add("daemon_starts_on_corrupted_time_stamp", 1)
         self.observed = {"trunc": s["garbage_len_after"] < s["garbage_len_before"], "mode": s["fresh_mode"]}
         out.sample({"daemon_store_path_observed": {"old_file_truncated": self.observed["trunc"],
                                                    "created_mode_octal": oct(self.observed["mode"]), "summary": s}})
